@@ -1,0 +1,120 @@
+//go:build verif
+// +build verif
+
+package ajson
+
+import (
+	"sort"
+)
+
+// This file is compiled only with `-tags verif`. It adds read-only views of private state for the
+// verification harness; it changes no behaviour of the package.
+
+// VerifOperator describes one registered operator.
+type VerifOperator struct {
+	Name     string
+	Priority uint8
+	Right    bool
+}
+
+// VerifRegistryInfo is a snapshot of the registries of math.go.
+type VerifRegistryInfo struct {
+	Operators    []VerifOperator
+	PriorityChar []byte
+	Functions    []string
+	Constants    []string
+}
+
+// VerifRegistry returns the registered operators, functions and constants, sorted by name.
+func VerifRegistry() (info VerifRegistryInfo) {
+	for name := range operations {
+		info.Operators = append(info.Operators, VerifOperator{Name: name, Priority: priority[name], Right: rightOp[name]})
+	}
+	sort.Slice(info.Operators, func(i, j int) bool { return info.Operators[i].Name < info.Operators[j].Name })
+	for c, ok := range priorityChar {
+		if ok {
+			info.PriorityChar = append(info.PriorityChar, c)
+		}
+	}
+	sort.Slice(info.PriorityChar, func(i, j int) bool { return info.PriorityChar[i] < info.PriorityChar[j] })
+	for name := range functions {
+		info.Functions = append(info.Functions, name)
+	}
+	sort.Strings(info.Functions)
+	for name := range constants {
+		info.Constants = append(info.Constants, name)
+	}
+	sort.Strings(info.Constants)
+	return
+}
+
+// VerifConstant returns the node registered for a constant name.
+func VerifConstant(name string) *Node {
+	return constants[name]
+}
+
+// VerifNode is a copy of the private fields of one node.
+type VerifNode struct {
+	Parent      *Node
+	HasChildren bool // children map is not nil
+	ChildKeys   []string
+	Children    []*Node // in the order of ChildKeys (sorted)
+	HasKey      bool
+	Key         string
+	HasIndex    bool
+	Index       int
+	Type        NodeType
+	HasData     bool
+	DataPtr     *[]byte
+	Borders     [2]int
+	Dirty       bool
+	Cache       interface{} // what value.Load() returns (nil when empty)
+}
+
+// VerifNodeState returns the private fields of a node. It does not fill any cache.
+func VerifNodeState(n *Node) (state VerifNode) {
+	state.Parent = n.parent
+	state.HasChildren = n.children != nil
+	for key := range n.children {
+		state.ChildKeys = append(state.ChildKeys, key)
+	}
+	sort.Strings(state.ChildKeys)
+	for _, key := range state.ChildKeys {
+		state.Children = append(state.Children, n.children[key])
+	}
+	if n.key != nil {
+		state.HasKey = true
+		state.Key = *n.key
+	}
+	if n.index != nil {
+		state.HasIndex = true
+		state.Index = *n.index
+	}
+	state.Type = n._type
+	state.HasData = n.data != nil
+	state.DataPtr = n.data
+	state.Borders = n.borders
+	state.Dirty = n.dirty
+	state.Cache = n.value.Load()
+	return
+}
+
+// VerifSetRand replaces the random sources of rand() and randint(); nil keeps the current one.
+func VerifSetRand(f func() float64, g func(int) int) {
+	if f != nil {
+		randFunc = f
+	}
+	if g != nil {
+		randIntFunc = g
+	}
+}
+
+// VerifTokenize exposes the expression tokenizer.
+func VerifTokenize(cmd string) ([]string, error) {
+	return tokenize(cmd)
+}
+
+// VerifRPN exposes the infix to postfix conversion.
+func VerifRPN(cmd string) ([]string, error) {
+	return newBuffer([]byte(cmd)).rpn()
+}
